@@ -54,6 +54,18 @@ where
     }
 }
 
+/// `needed_bytes` counts the bytes of an unsigned magnitude. A signed value `v` needs one more
+/// bit (the sign) than the magnitude of `v` (or of `!v` if negative): returns a non negative
+/// key for which `needed_bytes` gives the width of the two's complement encoding of `v`.
+fn signed_size_key(v: i64) -> i64 {
+    let magnitude = v ^ (v >> 63);
+    if magnitude > (i64::MAX >> 1) {
+        i64::MAX
+    } else {
+        (magnitude << 1) | 1
+    }
+}
+
 #[derive(Default, Debug)]
 pub enum ValueCounter<T> {
     #[default]
@@ -242,11 +254,11 @@ impl<PN: PropertyName> Property<PN> {
             } => match entry.value(name).as_ref() {
                 Value::Signed(value) => {
                     counter.process(*value);
-                    size.process(*value);
+                    size.process(signed_size_key(*value));
                 }
                 Value::SignedWord(value) => {
                     counter.process(value.get());
-                    size.process(value.get());
+                    size.process(signed_size_key(value.get()));
                 }
                 _ => {
                     panic!("Value type doesn't correspond to property");
